@@ -100,11 +100,17 @@ func TestCheck(t *testing.T) {
 
 	rep.SelfCheck(t, report.Scenario{Name: "selfcheck", Body: func(r *explore.Run) {
 		xrdBody(r, rep0(), "selfcheck", 4, clFull, false)
-	}}, func() { baselines = map[baselineKey]J{}; counts = map[string]int{} })
+	}}, func() {
+		baselines, counts = map[baselineKey]J{}, map[string]int{}
+		reportedSigs, lastCase, lastSig = map[string]bool{}, "", ""
+	})
 	rep.RunScenarios(t, list)
 	for k, n := range counts {
 		rep.Extra("observed:"+k, n)
 	}
+	rep.Note("observed, not judged: a version without schema makes both renderers fail (errCustomResourceValidationNil in internal/xcrd/crd.go genCrdVersion) although the API documentation of CompositeResourceDefinitionVersion.Schema says omitting it yields a machinery-only schema")
+	rep.Note("observed, not judged: the author's top-level required list and top-level x-kubernetes-validations are not carried into the CRDs (only description, metadata.name.maxLength, spec and status are read from the author schema); the status object's x-kubernetes-preserve-unknown-fields is not carried either")
+	rep.Note("observed, not judged: claim names that overlap the composite's names across fields (claim singular = composite plural, claim kind = composite listKind) are rendered without error")
 	rep.Write(t)
 }
 
